@@ -18,14 +18,14 @@ fn fixed_random_state() -> std::collections::hash_map::RandomState {
 }
 
 #[kani::proof]
-#[kani::unwind(34)]
+#[kani::unwind(5)]
 #[kani::stub(std::collections::hash_map::RandomState::new, fixed_random_state)]
 fn probe_min() {
     let mut js = JournaledState::new(SpecId::CANCUN, HashSet::default());
     let acc = any_account();
     let b0 = acc.info.balance;
     let n0 = acc.info.nonce;
-    js.state.insert(A, acc);
+    core::mem::forget(js.state.insert(A, acc));
     let d0 = js.depth;
     let j0 = js.journal.len();
     let cp = js.checkpoint();
@@ -38,4 +38,5 @@ fn probe_min() {
     assert!(a.info.nonce == n0);
     assert!(limbs_eq(&a.info.balance, &b0));
     assert!(!a.is_touched());
+    core::mem::forget(js);
 }
